@@ -1,6 +1,7 @@
 package rules
 
 import (
+	"go/token"
 	"strings"
 
 	"golang.org/x/tools/go/ssa"
@@ -210,6 +211,26 @@ func runC11(c *eng.Ctx) {
 	// ---- R15.8 (shared) the configuration keys this property's switches hang on reach their fields
 	ruleConfigWiring(c, "R15.8")
 
+	// ---- R11.3 extension: a cursor lives in partition hash(key) mod (number of partitions the cursors stream HAS)
+	c.Rule("R11.3", "K5")
+	if fn := c.Fn("server.(*cursorManager).getCursorsPartitionID"); fn != nil {
+		ok := false
+		eng.Instrs(fn, func(in ssa.Instruction) {
+			bo, isBo := in.(*ssa.BinOp)
+			if !isBo || bo.Op != token.REM {
+				return
+			}
+			y := bo.Y
+			if cv, isCv := y.(*ssa.Convert); isCv {
+				y = cv.X
+			}
+			if eng.Len(eng.Call(-1, "server.stream.GetPartitions"))(y) {
+				ok = true
+			}
+		})
+		c.Check(ok, "cursor partition = hash mod the stream's actual partition count", p.Pos(fn.Pos()), "hasher(key) % len(stream.GetPartitions())", "the cursors partition of a key is not computed modulo the number of partitions the cursors stream actually has (the configured number is ignored once the stream exists): after a restart with another cursors.stream.partitions setting cursors are looked up in the wrong partition and FetchCursor answers -1 for cursors that are stored")
+	}
+
 }
 
 func shortRef(r string) string {
@@ -304,6 +325,15 @@ func ruleCursorPublishThenCache(c *eng.Ctx) {
 			})
 			if n == 0 {
 				c.Violate("cache updated after publish", p.Pos(fn.Pos()), "SetCursor no longer updates the cache: a cached older value would be served after a successful SetCursor")
+			}
+			// success means stored: every nil return of SetCursor lies behind the successful publish (a shortcut for "the cache
+			// already holds this offset" trusts a cache that an earlier, timed-out but applied SetCursor did not update)
+			for _, r := range eng.Returns(fn) {
+				rv := eng.RetVals(r)
+				if len(rv) == 1 && eng.NilConst(rv[0]) {
+					g, w := eng.GuardedBy(fn, r, errNil)
+					c.Check(g && len(errNil) > 0, "SetCursor reports success only after its publish succeeded", c.Pos(r), "return nil lies behind err == nil of api.Publish", "SetCursor can report success without having published the cursor (path "+w.String()+"): when the cached value is stale — a SetCursor whose caller timed out was applied all the same — the newer stored cursor wins after the cache entry is gone, i.e. FetchCursor returns the offset of a call that failed")
+				}
 			}
 		}
 	}
